@@ -14,6 +14,7 @@ import (
 	"strconv"
 	"strings"
 	"sync"
+	"sync/atomic"
 	"syscall"
 	"time"
 	"unsafe"
@@ -332,6 +333,11 @@ func runFamily(p Program, famIdx int, fam *Family, tier string, seed int64, nwor
 	}
 	var mu sync.Mutex
 	var wg sync.WaitGroup
+	// once a few crashes or hangs have been attributed in this family there is
+	// nothing to gain from waiting for the watchdog again and again: the
+	// remaining shards stop (the family is then reported as not exhaustive)
+	var crashes atomic.Int32
+	const maxCrashesPerFamily = 4
 	for s := 0; s < n; s++ {
 		wg.Add(1)
 		go func(s int) {
@@ -343,6 +349,9 @@ func runFamily(p Program, famIdx int, fam *Family, tier string, seed int64, nwor
 				deadline = start.Add(fam.Budget)
 			}
 			for {
+				if crashes.Load() >= maxCrashesPerFamily && seg > 0 {
+					return
+				}
 				wr := &workerRun{shard: s, startPos: startPos, onlyItem: -1,
 					outPath:  filepath.Join(scratch, fmt.Sprintf("f%d-s%d-%d.jsonl", famIdx, s, seg)),
 					progPath: filepath.Join(scratch, fmt.Sprintf("f%d-s%d-%d.progress", famIdx, s, seg))}
@@ -439,6 +448,7 @@ func runFamily(p Program, famIdx int, fam *Family, tier string, seed int64, nwor
 						break
 					}
 				}
+				crashes.Add(1)
 				mu.Lock()
 				if repro == tries {
 					desc := fmt.Sprintf("item %d", item)
@@ -457,6 +467,12 @@ func runFamily(p Program, famIdx int, fam *Family, tier string, seed int64, nwor
 				mu.Unlock()
 				startPos = int(pos) + 1
 				seg++
+				if crashes.Load() >= maxCrashesPerFamily {
+					mu.Lock()
+					fo.res.Exhaustive = false
+					mu.Unlock()
+					return
+				}
 				if seg > 200 {
 					mu.Lock()
 					fo.harnessErr = append(fo.harnessErr, "too many worker crashes in shard")
